@@ -397,7 +397,8 @@ PROPS["C02"] = dict(
 PROPS["C20"] = dict(
     harness="c20_options", flavour="asan", extra_targets={"asan": ["gmgpolar_cli"]},
     quick=dict(workers=8, cases=1200, min_nontrivial=300),
-    thorough=dict(workers=16, cases=30000, min_nontrivial=5000, budget_s=3300),
+    thorough=dict(workers=16, cases=30000, min_nontrivial=5000, budget_s=3300,
+                  fuzz=dict(target="f20_options", runs=20000, jobs=8, max_len=128, budget_s=3000)),
     rule="Two parts. api (70%): the full setter cross product in-process under ASan/UBSan/assert: every enum including "
          "out-of-range integers cast into the enum type, tolerances enabled/disabled, maxIterations 0..5 or 150, smoothing "
          "steps 0..3, maxLevels -1..7, threads 1/2/5, threadReductionFactor 1..0.01, smallest grids (nr_exp 1..4, ntheta_exp "
